@@ -415,11 +415,18 @@ _public_ int m_ctx_deregister(void) {
     M_CTX_ASSERT();
     M_PARAM_ASSERT(c->state == M_CTX_IDLE);
 
-    int ret = pthread_setspecific(key, NULL);
-    if (ret == 0) {
+    int ret = 0;
+    M_MEM_LOCK(c, {
+        /* Modules can only be deregistered from their own context: do it while it still is this thread's one */
         m_iterate(c->modules, ctx_destroy_mods, NULL);
-        m_mem_unref(c);
-    }
+        /* A non persistent context was already released by its last module leaving it */
+        if (pthread_getspecific(key) == c) {
+            ret = pthread_setspecific(key, NULL);
+            if (ret == 0) {
+                m_mem_unref(c);
+            }
+        }
+    });
     return ret;
 }
 
